@@ -15,3 +15,5 @@ cp $V/h/common.go $V/h/fsproj.go $B/sharness/
 $B/instr $R $B/instr-out $V/sched/vsync $B/sharness $B/soverlay.json
 cd $R
 go build -tags verif -overlay $B/soverlay.json ${RACE:+-race} -o $B/verifs${RACE:+-race} ./internal/verifs
+# the uninstrumented esbuild binary from the same tree (service protocol sessions of C20)
+if [ -z "$RACE" ]; then go build -o $B/esbuild-real ./cmd/esbuild; fi
